@@ -5,6 +5,7 @@ import (
 	"go/token"
 	"go/types"
 	"regexp"
+	"sort"
 	"strings"
 )
 
@@ -574,6 +575,7 @@ func init() {
 				for _, ret := range qi.returnsOf() {
 					rs = append(rs, e.sym(ret.Results[0]))
 				}
+				sort.Strings(rs)
 				okD := len(rs) == 2 && rs[0] == "$2" && rs[1] == `((recv.qualifyImport($0,$1)+".")+$2)`
 				r.Check(okD, "qualifiedID/definition", qi.Decl.Pos(), "qualifiedID = sym when the import qualifier is empty, else qualifier.sym (%v)", rs)
 			}
